@@ -9,7 +9,8 @@ def main(tier):
     c.set_deadline(900 if quick else 3000)
     c.build('asan', ['c19'])
     c.build('plain', ['c19'])
-    c.run_family('asan', 'c19', 'fix1', env=env)
+    c.run_family('plain' if quick else 'asan', 'c19', 'fix1', env=env)
+    c.run_family('plain', 'c19', 'fix2x', env=env)
     c.run_family('plain', 'c19', 'fix2', env=env)
     c.run_family('plain', 'c19', 'fix3', env=env)
     c.run_family('asan', 'c19', 'link', env=env)
@@ -19,7 +20,8 @@ def main(tier):
     return c.finish(
         rule='fixVariableInterfaces: every rooted forest given by a parent vector p[i] in {-1,0..i-1} on 1..%d components (1..%d for three links) x every hub component x every ordered '
              'sequence of 1, 2 (3) distinct target places among the other forest components, a component of another model, a component outside any model and "no component" x '
-             'all 6^(k+1) initial interface strings from {unset, public, private, public_and_private, none, foo} on hub and targets (fix1, fix2, fix3), plus a bystander without '
+             'all 6^(k+1) initial interface strings from {unset, public, private, public_and_private, none, foo} on hub and targets (fix2, fix3); fix1 uses the whole menu of 24 strings on both variables '
+             '(adds 18 invalid strings holding each legal value as prefix / suffix / infix, reordered, space-separated and case variants) and fix2x the whole menu on the hub of every two-link structure on <= 3 (thorough 4) components; plus a bystander without '
              'equivalence and an already sufficient connected pair; linkUnits: 2 layouts x 6^4 units assignments; clean(): every forest on 0..%d components with one seed '
              '(14 emptiness variants) in every slot and every forest on 0..%d components with two seeds (second slot may lie inside the first seed), every sequence of <= %d units '
              'over 7 kinds; distinct by construction (index -> case is injective)' % (n12, n3, nc1, nc2, ul),
@@ -27,6 +29,7 @@ def main(tier):
             'required interface computed from the parent vector: public towards a sibling or the parent component, private towards a child component; everything else (grandparent, cousin, other model, component without model, variable without component) makes the equivalence unfixable',
             'a variable with an unfixable equivalence must keep its interface string ("If the interface type for a variable cannot be set correctly, it is left unchanged"); a variable whose string already suffices must keep it; otherwise any sufficient result is accepted',
             'when true is returned the validator must raise no issue with a MAP_VARIABLES_* rule on the model; other validator issues (the deliberately invalid bystander string "foo") are ignored',
+            'an invalid interface string is never sufficient, whatever legal value it contains; only the exact strings public, private, public_and_private can be',
             'two variables of the same component are never connected (the statement lists siblings, parent/child and unreachable pairs only)',
             'clean(): "empty" exactly as documented in model.h; a component that is nothing but an import or carries nothing but an encapsulation id, and a units that is nothing but an import, are not covered by the wording - either outcome is accepted for them (reference is a set)',
             'remaining children must keep their order; the model is compared through the independent canonical dump (common.hpp), unsorted',
